@@ -68,6 +68,7 @@ def plumbing(entry: int, ahb_beh: int, cond_beh: int) -> bool:
     pre: 0 <= entry < 4 and 0 <= ahb_beh < 4 and 0 <= cond_beh < 4
     post: _
     """
+    xs.path_start()
     entry, ahb_beh, cond_beh = xs.pick(entry, 0, 4), xs.pick(ahb_beh, 0, 4), xs.pick(cond_beh, 0, 4)
     with xs.nt():
         _capture()
@@ -150,6 +151,7 @@ def strings(idx: int, entry: int) -> bool:
     pre: LO <= idx < HI and 0 <= entry < 4
     post: _
     """
+    xs.path_start()
     idx, entry = xs.pick(idx, LO, HI), xs.pick(entry, 0, 4)
     with xs.nt():
         text, pk, ck = string_cases()[idx]
@@ -215,6 +217,7 @@ def history_pairs(idx: int, malformed_first: bool) -> bool:
     pre: 0 <= idx < len(PAIRS)
     post: _
     """
+    xs.path_start()
     idx = xs.pick(idx, 0, len(PAIRS))
     good, bad = PAIRS[idx]
     xs.REAL_LRU = True  # the parsers' caches really cache during this path and start empty
